@@ -158,6 +158,16 @@ add("C20", "lifecycle-sim", "exploration",
     "Trusted: the field catalogue (names, defaults, alternatives) is read from a default System of the current tree.",
     "DESIGN.md section 4, C20")
 
+add("C13", "restart-sim", "exploration",
+    "deterministic simulation: export -> cold restart from the export alone (json stream/file, xlsx file, chains of hops) with truncation and lost-write storage faults; field-by-field, power-flow and initialisation equality with the original",
+    "Partial claim (round-trip clause as cold restart from durable state; parser-vs-source and cross-format equivalence are pure functions "
+    "of file content and not claimed). Every stock case (xlsx, json, raw+dyr, matpower sources) is exported and a new System is built from "
+    "the export alone, through one to three hops over json and xlsx; exported parameters must be equal field by field, the power-flow "
+    "solution equal to 1e-12 and the dynamic-initialisation residual vectors equal. A truncated or lost export must fail loudly (exception, "
+    "None, non-zero CLI status) or load to an equal system, never to a different one.",
+    "Trusted: equality is judged on exported input-base parameters; bit flips are not injected because neither format carries a checksum "
+    "over names and numbers.", "DESIGN.md section 4, C13")
+
 ENGINES = [
     {"name": "tds-sim", "path": "dst/tdssim.py", "kind_free_text": "real TDS loop under StepTap/SolverTap/TimerTap/StoreTap/ConnTap "
      "seams with seeded plans (events, segments, restarts, solver/disk/clock faults, crash points)", "serves_properties": []},
